@@ -56,6 +56,8 @@ def _gen_file(rng, version=2, arbitrary=None):
                 b = bytearray(b'\xff' * 64)
             elif r < 0.2:
                 b[48:52] = bytes(4)
+            elif r < 0.26 and i > 0:
+                b = bytearray(worlds.magic_record(rng))       # a record that happens to begin like a file magic / section tag
             if i == 0 and b[0] == 0:
                 b[0] = rng.randrange(1, 256)
             recs.append(bytes(b).hex())
@@ -81,7 +83,7 @@ def generate(rng, index, tier):
     judged = _gen_file(rng)
     if index % 211 == 9:
         # a big capture: hundreds or thousands of thread-map entries (with repeated tids/pids) and of records
-        n = [260, 1030, 4100, 70000][(index // 211) % 4]
+        n = [260, 1030, 4100, 70000, worlds.dict_size(rng, 70000) or 300][(index // 211) % 5]
         judged['writer']['tmap'] = [[rng.randrange(1, 3000), rng.randrange(1, 500), rng.ident(1, 10), ''] for _ in range(n)]
         judged['raw_records'] = [(bytes([1 + i % 255]) + rng.randbytes(63)).hex() for i in range([300, 1100, 5000][(index // 211) % 3])]
         judged.pop('zero_lead', None)
